@@ -20,6 +20,7 @@ enum Op {
     PtrTxtOnlyStream,
     HostileCorpus,
     Browse,
+    BrowseCache,
     StopBrowse,
     Resolve,
     StopResolve,
@@ -29,7 +30,7 @@ enum Op {
     UnsolicitedOff,
     Idle10s,
 }
-const OPS: [Op; 20] = [
+const OPS: [Op; 21] = [
     Op::UnbrowsedTypeStream,
     Op::OrphanStream,
     Op::BrowsedStream,
@@ -42,6 +43,7 @@ const OPS: [Op; 20] = [
     Op::PtrTxtOnlyStream,
     Op::HostileCorpus,
     Op::Browse,
+    Op::BrowseCache,
     Op::StopBrowse,
     Op::Resolve,
     Op::StopResolve,
@@ -181,6 +183,18 @@ fn run_case_lb(seq: &[Op], loopback: bool, trace: bool) -> CaseResult {
                     orphan_growth.clear();
                 }
                 let rx = w.ds[0].h.browse("_t._tcp.local.").unwrap();
+                w.add_browse(0, rx);
+                w.poke(0);
+                browsing = true;
+            }
+            Op::BrowseCache => {
+                // a cache-only browse of the same type (replaces a running browse's listener); the
+                // type counts as searched: its records are cached and reported
+                if !browsing {
+                    browse_baseline = Some(before.clone());
+                    orphan_growth.clear();
+                }
+                let rx = w.ds[0].h.browse_cache("_t._tcp.local.").unwrap();
                 w.add_browse(0, rx);
                 w.poke(0);
                 browsing = true;
@@ -369,12 +383,12 @@ pub fn check(tier: &str) -> i32 {
     };
     // quick tier: sequences of full depth only if they begin by opening something (a browse, a
     // resolver, a registration, accept_unsolicited); shorter ones all.  Thorough: everything.
-    let starters = [Op::Browse, Op::Resolve, Op::Register, Op::UnsolicitedOn];
+    let starters = [Op::Browse, Op::BrowseCache, Op::Resolve, Op::Register, Op::UnsolicitedOn];
     let full_len = depth;
     let keep = move |sq: &[Op]| -> bool { thorough || sq.len() < full_len || starters.contains(&sq[0]) };
     let part = FnPart {
         name: "traffic-and-search-sequences".into(),
-        rule: format!("every sequence of <= {depth} events (quick tier: those of full length only when they begin with browse / resolve_hostname / register / accept_unsolicited; the others are skipped and count as trivial) over 11 traffic generators (streams of 50-100 distinct names for an unbrowsed type / without PTR / for the browsed type with subtypes, 100x announce+goodbye, 100x and 200x re-announcement, 20 and 40 updates of one TXT record 150 ms apart, 20 instances with PTR and TXT but no SRV, hostile corpus) and 9 API calls; metrics compared before/after each traffic event, after all TTLs, and one hour later"),
+        rule: format!("every sequence of <= {depth} events (quick tier: those of full length only when they begin with browse / resolve_hostname / register / accept_unsolicited; the others are skipped and count as trivial) over 11 traffic generators (streams of 50-100 distinct names for an unbrowsed type / without PTR / for the browsed type with subtypes, 100x announce+goodbye, 100x and 200x re-announcement, 20 and 40 updates of one TXT record 150 ms apart, 20 instances with PTR and TXT but no SRV, hostile corpus) and 10 API calls; metrics compared before/after each traffic event, after all TTLs, and one hour later"),
         n: nseq,
         describe: Box::new(move |i| format!("{:?}", seq_of(i))),
         run: Box::new(move |i, tr| { let sq = seq_of(i); if keep(&sq) { run_case(&sq, tr) } else { CaseResult::default() } }),
